@@ -1898,6 +1898,8 @@ class Recipe:
         """
         if self.locked:
             raise RuntimeError("This recipe is locked.")
+        if self.current_stage == 'all':
+            raise ValueError("There is no open stage to end.")
         if self.current_stage != name:
             raise ValueError("Current stage does not match name.")
 
